@@ -997,6 +997,9 @@ pub fn case_strategy(focus: Focus) -> impl Strategy<Value = SimkCase> {
                 prop_oneof![3 => Just(1_000u32), 2 => Just(50_000u32), 1 => Just(1_000_000u32)],
                 if focus == Focus::C04 {
                     prop_oneof![3 => Just(vec![]), 2 => prop::collection::vec(prop_oneof![2 => Just(0u8), 1 => 1u8..250], 1..24)].boxed()
+                } else if focus == Focus::C02 || focus == Focus::C03 {
+                    // a signal handler interrupting a blocking poll now and then
+                    prop_oneof![5 => Just(vec![]), 1 => prop::collection::vec(prop_oneof![3 => Just(0u8), 1 => 1u8..250], 1..24)].boxed()
                 } else {
                     Just(vec![]).boxed()
                 },
